@@ -158,7 +158,7 @@ package service
 //@   callsite DialStream: sliceoff(arg2) == sliceoff(req.Payload)
 //@   callsite DialStream: len(arg2) == len(req.Payload)
 //@   callsite Abort: isnil(clientConn)
-//@   callsite Read: len(arg0) == lnc.initialPayloadWaitBufferSize && clientInfo.NativeInitialPayload && lnc.waitForInitialPayload
+//@   callsite Read: clientInfo.NativeInitialPayload
 //@   callsite Proceed: isnil(clientConn)
 //@   callsite CollectTCPSession: arg0 == req.Username && arg1 == uint64(nr2l) && arg2 == uint64(nl2r)
 //@   callsite BidirectionalCopy: arg0 == clientConn
